@@ -8,7 +8,8 @@ Require Import Fggs.Model.Replace Fggs.Proofs.Replace_base Fggs.Proofs.Replace_w
 
 (** * isomorphism through a naming (Prop level) and soundness of the oracle *)
 Definition iso_via (g : graph) (nn : list (node * name)) (en : list (edge * name)) (d : dgraph) : Prop :=
-  map fst nn = g_nodes g /\ map fst en = g_edges g /\ NoDup (map n_id (g_nodes g)) /\
+  map fst nn = g_nodes g /\ map fst en = g_edges g /\
+  NoDup (map n_id (g_nodes g)) /\ NoDup (map e_id (g_edges g)) /\
   NoDup (map snd nn) /\ NoDup (map snd en) /\
   exists d', rename_graph nn en = Some d' /\
              Permutation (d_nodes d') (d_nodes d) /\ Permutation (d_edges d') (d_edges d).
@@ -16,9 +17,10 @@ Definition iso_via (g : graph) (nn : list (node * name)) (en : list (edge * name
 Theorem same_upto_naming_sound : forall g nn en d, same_upto_naming g nn en d = true -> iso_via g nn en d.
 Proof.
   intros g nn en d H. unfold same_upto_naming in H.
-  do 5 (apply andb_true_iff in H; destruct H as [H ?]).
+  do 6 (apply andb_true_iff in H; destruct H as [H ?]).
   apply (list_eqb_eq node_eqb node_eqb_eq) in H.
-  apply (list_eqb_eq edge_eqb edge_eqb_eq) in H4.
+  apply (list_eqb_eq edge_eqb edge_eqb_eq) in H5.
+  apply (nodupb_NoDup id_eqb id_eqb_eq) in H4.
   apply (nodupb_NoDup id_eqb id_eqb_eq) in H3.
   apply (nodupb_NoDup name_eqb name_eqb_eq) in H2.
   apply (nodupb_NoDup name_eqb name_eqb_eq) in H1.
@@ -46,22 +48,24 @@ Proof.
   destruct Hn as [k [l [-> ?]]]. simpl in E. inversion E. lia.
 Qed.
 
-Lemma has_node_id_false : forall g nx, (forall n, In n (g_nodes g) -> id_lt nx (n_id n)) ->
-  has_node_id g (Fresh nx) = false.
+Lemma find_node_id_fresh : forall ns nx, (forall n, In n ns -> id_lt nx (n_id n)) ->
+  find_node_id ns (Fresh nx) = None.
 Proof.
-  intros. unfold has_node_id. destruct (existsb _ _) eqn:E; auto.
-  apply existsb_exists in E. destruct E as [n [Hn Hi]]. apply id_eqb_eq in Hi.
-  specialize (H n Hn). rewrite Hi in H. simpl in H. lia.
+  induction ns as [|m ns IH]; simpl; intros; auto.
+  destruct (id_eqb (n_id m) (Fresh nx)) eqn:E.
+  - apply id_eqb_eq in E. specialize (H m (or_introl eq_refl)). rewrite E in H. simpl in H. lia.
+  - apply IH. intros; apply H; auto.
 Qed.
 
-Lemma add_missing_fresh : forall ls g nx, (forall n, In n (g_nodes g) -> id_lt nx (n_id n)) ->
-  add_missing_nodes g (fresh_nodes nx ls) = add_nodes g (fresh_nodes nx ls).
+Lemma check_new_nodes_fresh : forall ls nx acc, (forall n, In n acc -> id_lt nx (n_id n)) ->
+  check_new_nodes empty_graph (fresh_nodes nx ls) acc = Some (acc ++ fresh_nodes nx ls).
 Proof.
-  unfold add_missing_nodes. induction ls; simpl; intros.
-  - rewrite add_nodes_nil; auto.
-  - cbn [n_id]. rewrite has_node_id_false by auto. rewrite IHls.
-    + unfold add_nodes, push_node; simpl. rewrite <- app_assoc. reflexivity.
-    + intros n Hn. unfold push_node in Hn; simpl in Hn. apply in_app_iff in Hn. destruct Hn as [Hn|[<-|[]]].
+  induction ls as [|l ls IH]; intros nx acc H.
+  - simpl. rewrite app_nil_r. reflexivity.
+  - cbn [fresh_nodes check_new_nodes empty_graph g_nodes find_node_id n_id].
+    rewrite find_node_id_fresh by auto. rewrite IH.
+    + rewrite <- app_assoc. reflexivity.
+    + intros n Hn. apply in_app_iff in Hn. destruct Hn as [Hn|[<-|[]]].
       * eapply id_lt_mono; [|apply H; auto]. lia.
       * simpl. lia.
 Qed.
@@ -73,9 +77,27 @@ Lemma start_graph_explicit : forall s nx,
   start_graph_model s nx = (mkGraph (start_nodes s nx) [start_edge s nx] [] [s], S (nx + length (l_type s)), start_edge s nx).
 Proof.
   intros. unfold start_graph_model, start_edge, start_nodes, add_edge.
-  cbn [has_edge_id empty_graph g_edges existsb e_att e_label e_id].
-  rewrite add_missing_fresh by (simpl; tauto).
+  cbn [has_edge_id empty_graph g_edges g_elabs existsb e_att e_label e_id label_clash find_label].
+  rewrite check_new_nodes_fresh by (simpl; tauto).
   reflexivity.
+Qed.
+
+Theorem start_graph_model_ok : forall s nx,
+  start_ok s (fst (fst (start_graph_model s nx))) = true /\
+  belowb (snd (fst (start_graph_model s nx))) (fst (fst (start_graph_model s nx))) = true /\
+  In (snd (start_graph_model s nx)) (g_edges (fst (fst (start_graph_model s nx)))).
+Proof.
+  intros. rewrite start_graph_explicit. cbn [fst snd]. split; [|split].
+  - unfold start_ok. cbn [g_edges g_nodes g_ext start_edge e_label e_att].
+    rewrite !andb_true_iff. repeat split.
+    + apply elabel_eqb_eq; auto.
+    + apply (list_eqb_eq node_eqb node_eqb_eq); auto.
+    + apply (list_eqb_eq Nat.eqb Nat.eqb_eq). unfold start_nodes. apply fresh_nodes_labels.
+    + apply (nodupb_NoDup id_eqb id_eqb_eq). apply fresh_nodes_ids_nodup.
+  - apply belowb_iff. split; cbn [g_nodes g_edges].
+    + intros n Hn. apply fresh_nodes_spec in Hn. destruct Hn as [k [l [-> ?]]]. simpl. lia.
+    + intros e [<-|[]]. simpl. lia.
+  - simpl; auto.
 Qed.
 
 Lemma start_names_keys : forall ns j, map fst (start_names j ns) = ns.
@@ -205,6 +227,7 @@ Proof.
   assert (FT : filter (np []) (rs_enames s) = rs_enames s) by apply filter_true.
   rewrite FT in PE.
   split; [apply (I_nn L s HI)|]. split; [apply (I_en L s HI)|]. split; [apply (wf_nodes _ (I_wf L s HI))|].
+  split; [apply (wf_edges _ (I_wf L s HI))|].
   split; [|split].
   - apply (Permutation_map fst) in PN. rewrite map_map in PN. cbn [dn_of fst] in PN.
     eapply Permutation_NoDup; [apply Permutation_sym; exact PN|]. eapply derived_nodes_nodup; eauto.
